@@ -79,9 +79,39 @@ def b_sorted(reg, eng, st, args, kwargs, node):
     if v.t[0] == "list" and len(v.x) <= 1:
         return [(st, v)]
     m = _sym_coll(eng, v)
-    if "key" in kwargs or "reverse" in kwargs:
+    if "key" in kwargs:
+        # sorted(xs, key=f[, reverse=True]) with an integer-valued key: a sequence with the same elements, ordered by key
+        # (a permutation; ties in arbitrary order -- stability is not modelled, the order among equal keys is left open)
+        f = kwargs["key"]
+        rev = kwargs.get("reverse")
+        if f.t[0] != "closure" or (rev is not None and not z3.is_true(z3.simplify(eng.truth(rev))) and not z3.is_false(z3.simplify(eng.truth(rev)))):
+            raise OutOfSubset("sorted with a key that is not a lambda / symbolic reverse")
+        descending = rev is not None and z3.is_true(z3.simplify(eng.truth(rev)))
+        et = m.t[1]
+        res = fresh(("seq", et), "sorted")
+        n = z3.Length(res.x)
+        x = z3.Const(fresh_name("e"), sort_of(et))
+        st.assume(z3.ForAll([x], z3.Select(m.x, x) == z3.Contains(res.x, z3.Unit(x))))
+        j, k = z3.Int(fresh_name("j")), z3.Int(fresh_name("k"))
+        # the same fact in index form (what the sequence theory does not derive by itself)
+        st.assume(z3.ForAll([j], z3.Implies(z3.And(0 <= j, j < n), z3.Select(m.x, res.x[j]))))
+        st.assume(z3.ForAll([x], z3.Implies(z3.Select(m.x, x), z3.Exists([j], z3.And(0 <= j, j < n, res.x[j] == x)))))
+
+        def key_of(term):
+            eng.qdepth = getattr(eng, "qdepth", 0) + 1
+            try:
+                r = eng.apply_closure(f, [from_term(et, term)], st)
+            finally:
+                eng.qdepth -= 1
+            if len(r) != 1 or r[0][1].t[0] != "int":
+                raise OutOfSubset("sorted key must be a pure integer-valued lambda")
+            return r[0][1].x
+        kj, kk = key_of(res.x[j]), key_of(res.x[k])
+        st.assume(z3.ForAll([j, k], z3.Implies(z3.And(0 <= j, j < k, k < n), (kj >= kk) if descending else (kj <= kk))))
+        return [(st, res)]
+    if "reverse" in kwargs:
         if not getattr(eng, "allow_sorted_key", False):
-            raise OutOfSubset("sorted with key/reverse")
+            raise OutOfSubset("sorted with reverse")
     # bag view: same elements, order abstracted away (callers may only use it as a collection)
     return [(st, V(("bag", m.t[1]), m.x))]
 
